@@ -212,7 +212,17 @@ class C05(Oracle):
                     w.count('probe:empty_operand')
             if k != 'join' and any('slot' in d and d['slot'] % len(w.vals) == ctx.recv_slot for d in engine_operand_descs(ctx.op)):
                 w.count('probe:self_operand')
-            _expect(ctx.post, exp, k)
+            if any(getattr(x, 'literal', None) is not None for x in oo):
+                # a plain str that carries escape sequences: C05 says "characters of a plain str have none" and the
+                # library documents that a str operand is taken as AnsiString(operand) - either the operand is
+                # parsed on its own or it is appended literally; anything else (e.g. its sequences acting on a
+                # neighbouring operand) is wrong under both readings
+                lit = [getattr(x, 'literal', None) or x for x in oo]
+                exp_lit = models.m_concat(lit) if k == 'join' else models.m_concat([ctx.pre] + lit)
+                if compare(ctx.post, exp) is not None:
+                    _expect(ctx.post, exp_lit, k + '.plain_operand_with_escapes')
+            else:
+                _expect(ctx.post, exp, k)
             if k == 'join' and len(ctx.op['xs']) >= 2:
                 # the operand objects as resolved before the call (the result may since have been
                 # stored over one of their slots)
@@ -320,7 +330,7 @@ class C06(Oracle):
         if ctx.kind == 'apply' and ctx.recv is not None:
             try:
                 ok = '\x1b' not in ctx.pre.text and all(codes.valid_g(c) for cell in ctx.pre.cells for c in cell)
-                ctx.pre_cps = change_point_positions(ctx.recv) if ok else None
+                ctx.pre_cps = True if ok else None
             except T.Undefined:
                 ctx.pre_cps = None
 
@@ -380,7 +390,7 @@ class C06(Oracle):
                 if i > a and not begun:
                     if cps is None or ctx.pre_objs is None:
                         begun = True
-                    elif i in cps:
+                    else:
                         prev, cur = ctx.pre_objs[i - 1], ctx.pre_objs[i]
                         begun = any(all(x is not y for y in prev) for x in cur)
                         if not begun:
@@ -557,8 +567,19 @@ class C11(Oracle):
             # for replace the clauses determine the text as well: characters outside the matches unchanged and
             # every match replaced by the replacement -> a different text means some match was not (or not
             # properly) replaced
-            _expect(post, models.m_replace(pre, op['old'], no, plain, op.get('count', -1),
-                                           pieces=getattr(ctx, 'c11_pieces', None)), 'replace')
+            pieces = getattr(ctx, 'c11_pieces', None)
+            if pieces is None:
+                _expect(post, models.m_replace(pre, op['old'], no, plain, op.get('count', -1)), 'replace')
+            else:
+                # a plain-str replacement with escape sequences: taken literally (text kept, settings of the first
+                # character of the match) or parsed (its own sequences besides those settings, in either order)
+                lit = getattr(no, 'literal', None) or no
+                if compare(post, models.m_replace(pre, op['old'], lit, True, op.get('count', -1))) is not None:
+                    exp = models.m_replace(pre, op['old'], no, plain, op.get('count', -1), pieces=pieces)
+                    require(post.text == exp.text, 'replace.plain_with_escapes.text', want=exp.text, got=post.text)
+                    for i, (got, want) in enumerate(zip(post.cells, exp.cells)):
+                        require(Counter(got) == Counter(want), 'replace.plain_with_escapes.cell', index=i,
+                                want=list(want), got=list(got))
         elif k == 'expandtabs':
             tab = op.get('tab', 8)
             exp = models.m_replace(pre, '\t', observe(' ' * tab), True, -1)
@@ -688,7 +709,9 @@ class C16(Oracle):
 
     def step(self, ctx):
         if ctx.kind == 'applymatch':
-            return self.step_applymatch(ctx)
+            # apply_formatting_for_match is not named by C16's statement: it stays in the workload (it is how
+            # format_matching is built), its own results are not judged
+            return
         if ctx.kind != 'fmatch':
             return
         _own_preamble(ctx, 'fmatch')
@@ -723,9 +746,14 @@ class C16(Oracle):
         require(ro.cells == post.cells, 'fmatch.equals_explicit_loop', matches=[[m.start(), m.end()] for m in ms],
                 loop=ro.to_json(), method=post.to_json())
         require(ro.render == post.render, 'fmatch.equals_explicit_loop_render', want=ro.render, got=post.render)
-        # "the same state": also which characters are covered by one and the same setting object
+        # "the same state": which characters are covered by one and the same setting object is part of it (removal and
+        # concatenation match markers by object, so two values that differ in it behave differently later on:
+        # seeded change S3-C16-1), and so is the library's own equality (the whole table by value)
         require(identity_pattern(ref) == identity_pattern(ctx.result), 'fmatch.equals_explicit_loop_spans',
                 loop=identity_pattern(ref), method=identity_pattern(ctx.result), matches=[[m.start(), m.end()] for m in ms])
+        if isinstance(ctx.result, AnsiString):
+            require(ref == ctx.result and ctx.result == ref, 'fmatch.equals_explicit_loop_eq',
+                    matches=[[m.start(), m.end()] for m in ms], loop=ro.to_json())
         inside = set()
         for m in ms:
             inside.update(range(m.start(), m.end()))
@@ -766,9 +794,11 @@ class C17(Oracle):
         sel = atoms.codes(op['st']) if op.get('st') is not None else []
         a_raw, b_raw = op['a'], op['b']
         # normalisation as the library documents it for these queries: negative counts from the end
-        # (clamped at 0), None means 0 / len; generated bounds never exceed len
-        a = 0 if a_raw is None else (max(n + a_raw, 0) if a_raw < 0 else a_raw)
-        b = n if b_raw is None else (max(n + b_raw, 0) if b_raw < 0 else b_raw)
+        # (clamped at 0), None means 0 / len, values past the end refer to the end (slice rules)
+        a = 0 if a_raw is None else (max(n + a_raw, 0) if a_raw < 0 else min(a_raw, n))
+        b = n if b_raw is None else (max(n + b_raw, 0) if b_raw < 0 else min(b_raw, n))
+        if (a_raw is not None and abs(a_raw) > n) or (b_raw is not None and abs(b_raw) > n):
+            ctx.world.count('probe:bound_beyond_length')
         detail = dict(selection=sel, range=[a, b], reverse=op['rev'], got=[fs, fe], value=pre.to_json())
         if b < a:
             require(res == (None, None), 'find.end_before_start', **detail)
@@ -992,8 +1022,10 @@ class C08(Oracle):
                     po = ctx.post_all[ctx.recv_slot]
                     require(to.text == po.text and to.cells == po.cells and to.render == po.render,
                             'inplace_equals_not_inplace', inplace=po.to_json(), not_inplace=to.to_json())
-                    require(identity_pattern(twin) == identity_pattern(recv), 'inplace_equals_not_inplace_spans',
-                            inplace=identity_pattern(recv), not_inplace=identity_pattern(twin), value=po.to_json())
+                    # "equal the non-in-place result": the library's own equality (the whole table by value); which
+                    # characters share one setting OBJECT is not part of it
+                    if isinstance(twin, AnsiString) and isinstance(recv, AnsiString):
+                        require(twin == recv and recv == twin, 'inplace_equals_not_inplace_eq', inplace=po.to_json())
             else:
                 require(ctx.result is not recv, 'not_inplace_returns_new', op=ctx.op)
         if k == 'join' and isinstance(ctx.result, AnsiString):
@@ -1226,8 +1258,6 @@ class C13(Oracle):
             require(so.text == ao.text, 'twin.text', op=ctx.op, item=j, ansistring=so.text, ansistr=ao.text)
             require(so.cells == ao.cells, 'twin.settings', op=ctx.op, item=j, ansistring=so.to_json(), ansistr=ao.to_json())
             require(so.render == ao.render, 'twin.str', op=ctx.op, item=j, ansistring=so.render, ansistr=ao.render)
-            require(identity_pattern(sv) == identity_pattern(av), 'twin.spans', op=ctx.op, item=j,
-                    ansistring=identity_pattern(sv), ansistr=identity_pattern(av), value=so.to_json())
             for (o, rs, re_) in display.FLAG_COMBOS:
                 x = sv.to_str(optimize=o, reset_start=rs, reset_end=re_)
                 y = av.to_str(optimize=o, reset_start=rs, reset_end=re_)
@@ -1342,6 +1372,8 @@ class C15(Oracle):
                         seqs = re.findall('\x1b\\[([\x30-\x3f\x20-\x2f]*)m', r)
                         for cell in set(o.cells):
                             for c in cell:
+                                if codes.parsable_g(c):
+                                    continue    # may stem from a name or an int; the clause speaks of verbatim settings
                                 ok = any((';' + c + ';') in (';' + q + ';') for q in seqs)
                                 require(ok, 'verbatim_setting_appears_intact', setting=c, flags=[op_, rs, re_], rendering=r)
                 # a character whose ONLY setting is a verbatim spelling of a known set code cannot be overridden
